@@ -203,6 +203,55 @@ class _Found(Exception):
     pass
 
 
+# Crash isolation. Cases normally run inside the pool worker; if the code under test takes the interpreter down (SIGSEGV / SIGBUS
+# from a view of a closed memory map, say) the worker dies and nothing is learnt. The tasks whose workers died are therefore run
+# again with ISOLATE on: every case in its own forked child, whose death by signal is the violation 'interpreter-crash' for that
+# case (shrunk and saved like any other).
+ISOLATE = False
+
+
+def _isolated(execute):
+    def run(spec):
+        r, w = os.pipe()
+        pid = os.fork()
+        if pid == 0:
+            code = 0
+            try:
+                os.close(r)
+                out = execute(spec)
+                data = json.dumps({'nontrivial': bool(out.nontrivial), 'classes': list(out.classes), 'violations': out.violations,
+                                   'key': out.key}, default=_default).encode()
+                os.write(w, data) if len(data) < 60000 else os.write(w, json.dumps({'nontrivial': True, 'classes': list(out.classes)[:50],
+                                                                                  'violations': out.violations[:3], 'key': None}, default=_default).encode())
+            except BaseException:
+                try:
+                    os.write(w, json.dumps({'harness': traceback.format_exc()[-3000:]}).encode())
+                except Exception:
+                    pass
+                code = 3
+            finally:
+                os._exit(code)
+        os.close(w)
+        chunks = []
+        while True:
+            b = os.read(r, 65536)
+            if not b:
+                break
+            chunks.append(b)
+        os.close(r)
+        _, status = os.waitpid(pid, 0)
+        if os.WIFSIGNALED(status):
+            out = Outcome()
+            out.viol('interpreter-crash', f'signal-{os.WTERMSIG(status)}', f'the interpreter was killed by signal {os.WTERMSIG(status)} while executing this case')
+            return out
+        d = json.loads(b''.join(chunks).decode() or '{}')
+        if 'harness' in d or os.WEXITSTATUS(status) != 0:
+            raise HarnessError('exception inside the harness/oracle (isolated case):\n' + d.get('harness', f'exit status {os.WEXITSTATUS(status)}'))
+        out = Outcome(nontrivial=d['nontrivial'], classes=d['classes'], violations=d['violations'], key=d.get('key'))
+        return out
+    return run
+
+
 class _StopShrink(BaseException):
     pass
 
@@ -226,6 +275,8 @@ def hyp_search(ctx, col, strategy, execute, seed, max_examples, shrink=True):
     execute(spec) -> Outcome. Known findings are excluded by construction so the
     search goes on behind them. A harness exception propagates (exit 2)."""
     from hypothesis import given, settings, seed as hseed, HealthCheck, Phase
+    if ISOLATE:
+        execute = _isolated(execute)
     last = {}
     state = {'after': 0, 'over': False, 'harness': False}
     budget = 150 if ctx.tier == 'quick' else 1000     # evaluations spent on shrinking one failure
@@ -293,6 +344,8 @@ def _is_found(e):
 def enum_search(ctx, col, specs, execute):
     """Run every spec of an explicit enumeration (no shrinking needed: the
     smallest failing spec per signature is kept)."""
+    if ISOLATE:
+        execute = _isolated(execute)
     for spec in specs:
         out = execute(spec)
         for v in judge(ctx, col, spec, out):
@@ -327,6 +380,12 @@ def _work(i):
     return col
 
 
+def _work_isolated(i):
+    global ISOLATE
+    ISOLATE = True
+    return _work(i)
+
+
 def run_tasks(ctx, tasks, procs=None):
     global _TASKS, _CTX
     _TASKS, _CTX = tasks, ctx
@@ -341,16 +400,29 @@ def run_tasks(ctx, tasks, procs=None):
     from concurrent.futures import ProcessPoolExecutor, as_completed
     from concurrent.futures.process import BrokenProcessPool
     mpctx = mp.get_context('fork')
+    died = []
     with ProcessPoolExecutor(max_workers=procs, mp_context=mpctx) as ex:
         futs = {ex.submit(_work, i): i for i in range(len(tasks))}
         for f in as_completed(futs):
             try:
                 total.merge(f.result())
             except BrokenProcessPool:
-                total.errors.append(f"worker process died while running task {futs[f]} {tasks[futs[f]][1]} "
-                                    f"(killed by a signal - a crash inside the code under test?)")
+                died.append(futs[f])       # (a broken pool fails every task that had not finished, not only the one that crashed)
             except Exception:
                 total.errors.append(f"task {futs[f]}:\n" + traceback.format_exc())
+    if died:
+        # a worker was killed by a signal: run the unfinished tasks again, every case in its own forked child
+        total.counters['tasks_rerun_with_crash_isolation'] += len(died)
+        with ProcessPoolExecutor(max_workers=procs, mp_context=mpctx) as ex:
+            futs = {ex.submit(_work_isolated, i): i for i in sorted(died)}
+            for f in as_completed(futs):
+                try:
+                    total.merge(f.result())
+                except BrokenProcessPool:
+                    total.errors.append(f"worker process died while running task {futs[f]} {tasks[futs[f]][1]} even with every case "
+                                        f"in its own child process")
+                except Exception:
+                    total.errors.append(f"task {futs[f]}:\n" + traceback.format_exc())
     return total
 
 
